@@ -493,11 +493,11 @@ class Ctx:
         s, _ = self.sym(body)
         tuples, arrays = {}, []
         for blk, i, st in body.stmts():
-            if st["k"] == "assign" and st["r"]["k"] == "aggregate" and not st["p"]["proj"]:
-                if st["r"]["agg"] == "tuple":
+            if st["k"] == "assign" and st["r"]["k"] == "aggregate":
+                if st["r"]["agg"] == "tuple" and not st["p"]["proj"]:
                     tuples[st["p"]["local"]] = st
                 elif st["r"]["agg"] == "array":
-                    arrays.append(st)
+                    arrays.append(st)      # `[..]`, or the array `vec![..]` writes into its box
         out = []
 
         def fold(e):
@@ -521,7 +521,13 @@ class Ctx:
                 if not ops or any(o not in tuples for o in ops):
                     continue
                 arr = sym.strip_transparent(s.rvalue(st["r"]))
-                if not _ra._has_subterm(src, arr):
+                if st["p"]["proj"]:
+                    # vec![..]: the array is written through the box that becomes the Vec
+                    if st["p"]["proj"][0]["k"] != "deref" or "box_assume_init_into_vec" not in sym.show(src, s):
+                        continue
+                    if len([x for x in arrays if x["p"]["proj"]]) != 1:
+                        continue
+                elif not _ra._has_subterm(src, arr):
                     continue
                 tc = self.true_conditions_raw(cb)
                 for o in ops:
